@@ -87,8 +87,8 @@ Definition write_value (k : bytes) (v : value) : bytes :=
 (** [expiry_ms]: [u64::try_from(ttl.as_millis()).unwrap_or(u64::MAX)] saturating-added to the
     wall clock (745a34c) *)
 Definition expiry_of (now wall t : Z) : Z := Z.min u64_max (wall + Z.min u64_max (t - now)).
-(** one key of write_snapshot's loop (rdb.rs:435-449): [storage.get] (lazy expiry:
-    an expired key is skipped), [storage.ttl], then write_key_value *)
+(** one key of write_snapshot's loop: [storage.get_with_ttl] (880a648: value and remaining TTL
+    under one lock acquisition; an expired or missing key is skipped), then write_key_value *)
 Definition write_key (now wall : Z) (ke : bytes * entry) : bytes :=
   let (k, e) := ke in
   if expired now e then []
@@ -120,14 +120,10 @@ Definition save_body (ver : bytes) (ctime now wall : Z) (ds : list db) : bytes :
 Definition save (ver : bytes) (ctime now wall : Z) (ds : list db) : bytes :=
   let b := save_body ver ctime now wall ds in b ++ u64_le (byte_sum b mod two64).
 
-(** Debug profile (overflow checks on): the writer still panics on [skiplist.len() - 1] of an
-    empty sorted set (not storable through the commands: ZREM removes an emptied key) *)
-Definition key_panics (now wall : Z) (ke : bytes * entry) : bool :=
-  let e := snd ke in
-  if expired now e then false
-  else match e_val e with VZSet [] => true | _ => false end.
-Definition save_panics (now wall : Z) (ds : list db) : bool :=
-  existsb (fun d => existsb (key_panics now wall) (d_data d)) ds.
+(** The writer has no panicking arithmetic left: the expiry saturates (745a34c) and a sorted set
+    is written as the items taken once with THEIR count (e63a0b6; an empty one - not storable
+    through the commands - is written with count 0 and is not restored).  Kept for the runner. *)
+Definition save_panics (now wall : Z) (ds : list db) : bool := false.
 
 (** the write_raw calls of one save are not modelled one by one here; Props/C10.v is
     stated for an arbitrary list of writes whose concatenation is [save ...]. *)
@@ -862,11 +858,12 @@ Definition ev_attempts (e : sv_event) : list attempt :=
   match e with EvSave a => [a] | EvBgStart a => [a] | EvBgEnd => [] end.
 
 (** ------------------------------------------------------------------ *)
-(** * C10 (2): one key under a save that runs beside the command thread (write_snapshot,
-      rdb.rs:435-449).  The save thread reads the key in two steps, each under its own lock
-      acquisition: [storage.get] (shard write lock; a deep clone of the value, except that a
-      sorted set is shared by Arc) and then [storage.ttl] (shard read lock).  Client commands
-      are atomic with respect to each step and may run between them. *)
+(** * C10 (2): one key under a save that runs beside the command thread (write_snapshot).
+      The save thread reads the key ONCE: [storage.get_with_ttl] returns the value (a deep clone;
+      a sorted set's items are taken once, under the skip list's lock, together with their count)
+      and the deadline under one acquisition of the shard lock (880a648, e63a0b6).  Client
+      commands are atomic with respect to that read; [before] run before it during the save,
+      [after] after it. *)
 Definition kstate := option (value * option Z).          (* absent | (value, deadline) *)
 Inductive cev := CSet (v : value) (dl : option Z) | CExpire (dl : Z) | CPersist | CDel.
 Definition cstep (s : kstate) (c : cev) : kstate :=
@@ -876,17 +873,13 @@ Definition cstep (s : kstate) (c : cev) : kstate :=
   | CPersist => match s with Some (v, _) => Some (v, None) | None => None end
   | CDel => None
   end.
-(** what the save writes for the key: the value seen by [get] (the key is skipped when absent
-    then), with the deadline seen by [ttl] after the client events [between] *)
-Definition snapshot_key (at_get : kstate) (between : list cev) : option (value * option Z) :=
-  match at_get with
-  | None => None
-  | Some (v, _) =>
-      match fold_left cstep between at_get with
-      | Some (_, dl) => Some (v, dl)
-      | None => Some (v, None)          (* ttl of a missing key: None *)
-      end
+(** what the save writes for the key: its state at the read, nothing if it is absent or past
+    its deadline then ([now] = the engine clock at the read) *)
+Definition snapshot_key (now : Z) (s0 : kstate) (before after : list cev) : kstate :=
+  match fold_left cstep before s0 with
+  | Some (v, Some dl) => if dl <=? now then None else Some (v, Some dl)
+  | x => x
   end.
-(** the states the key went through during the window *)
+(** the states the key goes through during the save *)
 Fixpoint states_of (s : kstate) (l : list cev) : list kstate :=
   match l with [] => [s] | c :: r => s :: states_of (cstep s c) r end.
